@@ -228,7 +228,8 @@ fn main() {
     let seeds: Vec<u64> = (0..if thorough { 64 } else { 16 }).collect();
     let mut bcells: Vec<(usize, f64)> = vec![];
     for &n in &[50usize, 100, 300] {
-        for &p in &[0.5, 0.3, 0.26, 0.1, 0.05, 0.01, 0.001] {
+        // p above 1/2 as well: the constructor clamps k to 1 there and has its own formula for m
+        for &p in &[0.9, 0.75, 0.6, 0.53, 0.51, 0.5, 0.3, 0.26, 0.1, 0.05, 0.01, 0.001] {
             let m_est = -(n as f64) * f64::ln(p) / (0.4804530139);
             if m_est <= if thorough { 1700.0 } else { 800.0 } {
                 bcells.push((n, p));
